@@ -324,3 +324,27 @@ def bufrecv_poll_data(ctx, rule):
                       "", None, p.describe())
     ctx.floor(rule, "end-of-stream paths of BufRecvStream::poll_data", n_end, 1)
     ctx.floor(rule, "transport-polling paths of BufRecvStream::poll_data", n_poll, 3)
+
+
+_REG = None
+
+
+def error_code_values(ctx, rule, names):
+    """The error codes a property names are RFC registry values (RFC 9114 8.1, RFC 9204 6, RFC 9297 5.2): the rules speak of
+    `Code::H3_FRAME_ERROR` by name, this ties the name to the number that goes on the wire."""
+    global _REG
+    import json, os
+    if _REG is None:
+        _REG = json.load(open(os.path.join(os.path.dirname(os.path.dirname(os.path.abspath(__file__))), "ref", "rfc9114_registries.json")))
+    want = dict(_REG["error_codes"])
+    want.update(_REG["qpack"]["error_codes"])
+    want["H3_DATAGRAM_ERROR"] = _REG["extensions"]["H3_DATAGRAM_ERROR"]
+    for n in names:
+        k = "h3::error::codes::Code::" + n
+        got = ctx.prog.const(k)
+        if got is None:
+            ctx.missing(rule, k)
+            continue
+        ctx.check(got == want[n], rule, k, "= 0x%x (registry value)" % want[n],
+                  "Code::%s is 0x%x, the registry value is 0x%x: every error this property requires to be `%s` goes on the wire as a different code"
+                  % (n, got, want[n], n), "0x%x" % got)
